@@ -96,11 +96,46 @@ def rules(ctx, tier):
     return out
 
 
+def manager_views(ctx, walmgr):
+    """Flat views of the WAL manager's methods with the manager's own private helpers inlined (ensure-writer,
+    roll-over ...); the allocator, the segment arithmetic and the methods of other types stay calls.
+    Returns ([(method, view)], paths inlined into some view)."""
+    from .. import flat as flatmod
+    prog = ctx.prog
+    cache = ctx.__dict__.setdefault("_c20_views", {})
+    if walmgr in cache:
+        return cache[walmgr]
+    counter_writers = set(fw.body.path for fw in ctx.world.field_writes
+                          if fw.field[1] == walmgr and "NonZero" in prog.ty_str(ctx.world._field_ty(fw.field)))
+
+    def policy(site, tgt, how):
+        if how == "param" or (how == "direct" and tgt.is_closure):
+            return True
+        if how != "direct" or tgt.reachable:
+            return False
+        if tgt.argc < 1 or prog.adt_of(tgt.locals[1])[0] != walmgr:
+            return False
+        if tgt.path in counter_writers or prog.ty_str(tgt.locals[0]) == "u64":
+            return False
+        return True
+    inlined_somewhere = set()
+    views = []
+    for b0 in prog.bodies.values():
+        if b0.argc < 1 or prog.adt_of(b0.locals[1])[0] != walmgr or b0.is_closure:
+            continue
+        V0 = flatmod.flatten(prog, b0, policy, 3)
+        views.append((b0, V0))
+        inlined_somewhere |= V0.inlined
+    cache[walmgr] = (views, inlined_somewhere)
+    return cache[walmgr]
+
+
 def record_placement(ctx, r, walmgr):
     prog = ctx.prog
-    for b in prog.bodies.values():
-        if b.argc < 1 or prog.adt_of(b.locals[1])[0] != walmgr or b.is_closure:
-            continue
+    views, inlined_somewhere = manager_views(ctx, walmgr)
+    for (b0, b) in views:
+        if b0.path in inlined_somewhere:
+            continue        # judged as part of its caller's view
         writes = [s for s in b.calls() if prog.local_target(s) is not None and
                   "WAL_WRITE" in sem_set(e for e in ctx.may.site_events(s) if ctx._concrete(e)) and
                   "WAL_SYNC" in sem_set(e for e in ctx.may.site_events(s) if ctx._concrete(e)) and
@@ -175,7 +210,9 @@ def record_placement(ctx, r, walmgr):
                 return l[2] if isinstance(l[2], tuple) else (body.path, l[2])
             # the decision and the open may sit in a private helper or a closure of this body: look through all of
             # them, tracing helper parameters and captured variables back to this body
-            scope = [prog.bodies[p] for p in sorted(prog.reachable_bodies([b]))]
+            # (closures handed to extern combinators are not inlined: they stay part of the scope)
+            scope = [b] + [prog.bodies[p] for p in sorted(prog.reachable_bodies([b0])) if prog.bodies[p].is_closure
+                           and p not in b.inlined]
             # (b) open_writer(seg)
             n_open = 0
             for sb in scope:
@@ -203,10 +240,14 @@ def record_placement(ctx, r, walmgr):
             for sb in scope:
                 ssl = Slicer(ctx.world, sb)
                 for bb2 in sb.normal_blocks():
-                    for st in sb.stmts(bb2):
-                        if not (st["k"] == "assign" and st["rv"]["k"] == "binop" and st["rv"]["op"] in ("Ne", "Eq")):
-                            continue
-                        sides = [ssl.leaves_up(st["rv"]["a"], depth=4), ssl.leaves_up(st["rv"]["b"], depth=4)]
+                    cands = [(st["rv"]["a"], st["rv"]["b"]) for st in sb.stmts(bb2)
+                             if st["k"] == "assign" and st["rv"]["k"] == "binop" and st["rv"]["op"] in ("Ne", "Eq")]
+                    tt = sb.blocks[bb2]["term"]
+                    if tt["k"] == "call" and term_path(tt) in ("std::cmp::PartialEq::eq", "std::cmp::PartialEq::ne") \
+                            and len(tt["args"]) == 2:
+                        cands.append((tt["args"][0], tt["args"][1]))      # e.g. Option<u64> == Some(target)
+                    for (ca, cb_) in cands:
+                        sides = [ssl.leaves_up(ca, depth=4), ssl.leaves_up(cb_, depth=4)]
                         for x, y in ((0, 1), (1, 0)):
                             tgt_side = bool(sides[x]) and all(l[0] == "call" and loc(sb, l) in seg_locs for l in sides[x])
                             wr_side = bool(sides[y]) and all(_of_writer(ctx, ssl, l) for l in sides[y])
@@ -245,6 +286,35 @@ def prune_bound(ctx, r, walmgr):
         sl = Slicer(ctx.world, b)
         # dominated by the true edge of `id < bound` with bound a parameter
         ok = False
+        owner = b
+        if b.is_closure:
+            # the unlink sits in a closure fed by an iterator pipeline (`.filter(|s| s.id < bound).try_fold(..)`): the
+            # guard is the predicate of a filter step in front of it, its bound a captured parameter of the owner
+            from . import c04
+            for (cs0, how0) in prog.callers_index().get(b.path, []):
+                if how0 != "extern-cb":
+                    continue
+                owner = cs0.body
+                osl = Slicer(ctx.world, owner)
+                filters, _start = c04._filter_chain(ctx, owner, osl, cs0.term["args"][0])
+                for fc in filters:
+                    fsl = Slicer(ctx.world, fc)
+                    for bb2 in fc.normal_blocks():
+                        for st in fc.stmts(bb2):
+                            if not (st["k"] == "assign" and st["rv"]["k"] == "binop" and st["rv"]["op"] in ("Lt", "Gt")):
+                                continue
+                            a_, b__ = st["rv"]["a"], st["rv"]["b"]
+                            if st["rv"]["op"] == "Gt":
+                                a_, b__ = b__, a_
+                            la_ = fsl.leaves_of_operand(a_)
+                            lb_ = fsl.leaves_up(b__, depth=1)      # captured variable -> the owner's parameter
+                            item_field = bool(la_) and all(l[0] == "param" and l[1] >= 2 and l[2] for l in la_)
+                            bound_param = bool(lb_) and all(l[0] in ("xparam", "param") and not l[2] for l in lb_) and \
+                                any(l[0] == "xparam" and l[1][0] == owner.path for l in lb_)
+                            # the closure's value is this comparison
+                            rl = fsl.leaves_of_place({"l": 0, "p": []})
+                            if item_field and bound_param and any(l[0] == "binop" and l[2] == bb2 for l in rl):
+                                ok = True
         for sw in b.normal_blocks():
             c = cfgutil.cmp_true_edge(b, sw)
             if c is None or c[0] not in ("Lt", "Gt", "Le", "Ge"):
@@ -256,11 +326,11 @@ def prune_bound(ctx, r, walmgr):
                     (op == "Gt" and any(l[0] == "param" for l in lx) and any(l[-1] and l[-1][-1] == "id" for l in ly))
             if lt_ok and cfgutil.edge_dominates(b, (sw, t_true), e.site.bb):
                 ok = True
-        r.check(ok, "unlink-below-bound", b,
+        r.check(ok, "unlink-below-bound", owner,
                 "a segment is unlinked at %s only if its id is strictly below the bound parameter" % site_where(e.site),
                 "the unlink at %s is not guarded by `segment id < bound`" % site_where(e.site), site_where(e.site))
         # the bound handed in by the caller(s): segment_of(version saved)
-        for (cs, how) in prog.callers_index().get(b.path, []):
+        for (cs, how) in prog.callers_index().get(owner.path, []):
             cb = cs.body
             csl = Slicer(ctx.world, cb)
             la = set()
@@ -302,18 +372,33 @@ def sentinel(ctx, r, must):
         callers = prog.callers_index().get(b.path, [])
         r.check(len(callers) == 1, "marker-single-caller", b, "%s has a single caller" % b.path,
                 "%s is called from %d places" % (b.path, len(callers)))
+        walmgr = ctx.anchors.get("WALMGR")
+        mviews, minl = manager_views(ctx, walmgr)
         for (cs, how) in callers:
+            # judged in the manager method that (through its private helpers) makes the call
+            cands = [(b0, V) for (b0, V) in mviews if b0.path not in minl and ctx.flat_sites_of(V, cs)]
+            if not cands:
+                cands = [(cs.body, cs.body)]
+            dom = True
+            for (b0, cb) in cands:
+                for fcs in (ctx.flat_sites_of(cb, cs) if getattr(cb, "is_flat", False) else [cs]):
+                    d1 = False
+                    # dominated by the roll-over decision (a switch on a comparison of the writer's segment with the
+                    # target, or on a bool computed from it)
+                    for sw in cb.normal_blocks():
+                        c = cfgutil.switch_condition(cb, sw)
+                        if not c or c[0] not in ("call", "bool", "cmp"):
+                            continue
+                        tt, ff = cfgutil.true_false_edges(cb, sw)
+                        nm = c[1] if c[0] in ("call", "cmp") else ""
+                        if c[0] == "cmp" and nm not in ("Ne", "Eq"):
+                            continue
+                        for edge_t in ((tt, ff) if c[0] == "cmp" else (tt,)):
+                            if edge_t is not None and cfgutil.edge_dominates(cb, (sw, edge_t), fcs.bb):
+                                if c[0] == "cmp" or "is_none_or" in nm or "ne" in nm or c[0] == "bool":
+                                    d1 = True
+                    dom = dom and d1
             cb = cs.body
-            # dominated by the roll-over decision (a switch on a bool computed from the writer/target comparison)
-            dom = False
-            for sw in cb.normal_blocks():
-                c = cfgutil.switch_condition(cb, sw)
-                if c and c[0] in ("call", "bool"):
-                    tt, ff = cfgutil.true_false_edges(cb, sw)
-                    if tt is not None and cfgutil.edge_dominates(cb, (sw, tt), cs.bb):
-                        nm = c[1] if c[0] == "call" else ""
-                        if "is_none_or" in nm or "ne" in nm or c[0] == "bool":
-                            dom = True
             r.check(dom, "marker-only-at-rollover", cb,
                     "the seal at %s happens only on the roll-over branch" % site_where(cs),
                     "the seal at %s is not confined to the roll-over branch" % site_where(cs), site_where(cs))
